@@ -121,7 +121,7 @@ Qed.
 
 Lemma step_wl_off gs es q c : (forall e, e_wl (enth es e) = false) -> step vf2b enum gs es q c = (step_p vf2b enum gs es q, c).
 Proof.
-  intros Hw. destruct q as [e i j|e h p|e h p|gm ch pa f ind nc ec names eattr|i j a b d|i j|i j ud fa a b d|fn ch pa o|r|mp e [i|] [j|]|t1 t2 i j ud fa a b d]; simpl; auto.
+  intros Hw. destruct q as [e i j|e h p|e h p|gm ch pa f ind nc ec names eattr|i j a b d|i j|i j ud fa a b d|fn ch pa o|r|mp e [i|] [j|]|t1 t2 i j ud fa a b d|h p na ea thr]; simpl; auto.
   - unfold isomorphic, isomorphic_p, iso_trace, iso_trace_p. destruct (n_nodes (gnth gs j) <? n_nodes (gnth gs i)).
     + rewrite pre_check_wl_off_any; auto. simpl. destruct (negb (pre_check_p (enth es e) (gnth gs i) (gnth gs j))); reflexivity.
     + rewrite pre_check_wl_off_any; auto. simpl. destruct (negb (pre_check_p (enth es e) (gnth gs j) (gnth gs i))); reflexivity.
